@@ -2,6 +2,7 @@
   DDProps.C11CopyVars — C11, last clause: `copy_vars` reproduces names and levels.
 -/
 import DDProofs.CopyVars
+import DDProofs.SmallCopyVars
 namespace DD
 open Std
 
@@ -11,22 +12,35 @@ permutation `names` of them; the target's existing declarations are compatible w
 (`VarsCompat`: it declares nothing, or some of the same variables at the same levels).  Then the
 call returns normally and the target declares exactly the source's variables at the source's
 levels, in both views (`vars` and `_level_to_var`); nodes, counts, caches, configuration and
-roots of the target are untouched. -/
+roots of the target are untouched.
+The TARGET afterwards is again a full reachable-state: its order is a bijection onto
+`0..n-1` (`OrderOK`, with the source's number of variables, never fewer than before); if it had
+the invariant `Inv` it still has it and every reference of the target denotes what it denoted;
+exact counts stay exact for the same ledger.  (The source is a pure value: `copy_vars` reads
+`source.vars` only, there is nothing of it that could change.) -/
 theorem C11_copy_vars (src : Tbl) (hO : OrderOK src) (names : List String)
     (hperm : names.Perm src.vars.keys) (m : Mgr) (hc : VarsCompat src m.tbl) :
     ∃ m', copyVarsCore src names m = (.ok (), m') ∧
       (∀ v : String, m'.tbl.vars[v]? = src.vars[v]?) ∧ (∀ i : Nat, m'.tbl.l2v[i]? = src.l2v[i]?) ∧
       m'.tbl.succ = m.tbl.succ ∧ m'.ref = m.ref ∧ m'.pred = m.pred ∧ m'.cache = m.cache ∧
-      m'.minFree = m.minFree ∧ m'.lastLen = m.lastLen ∧ m'.ctx = m.ctx ∧ m'.roots = m.roots :=
-  copyVarsCore_spec src hO names hperm m hc
+      m'.minFree = m.minFree ∧ m'.lastLen = m.lastLen ∧ m'.ctx = m.ctx ∧ m'.roots = m.roots ∧
+      OrderOK m'.tbl ∧ m'.tbl.nvars = src.nvars ∧ m.tbl.nvars ≤ m'.tbl.nvars ∧
+      (Inv m → Inv m' ∧ ∀ u, m.tbl.Mem u → m'.tbl.Mem u ∧ ∀ a, den m'.tbl u a = den m.tbl u a) ∧
+      (∀ ext, RefExact m ext → RefExact m' ext) := by
+  obtain ⟨m', h, a1, a2, a3, a4, a5, a6, a7, a8, a9, a10⟩ := copyVarsCore_spec src hO names hperm m hc
+  obtain ⟨m'', h', b1, b2, b3, b4, b5⟩ := copyVarsCore_inv src hO names hperm m hc
+  rw [h] at h'; cases h'
+  exact ⟨m', h, a1, a2, a3, a4, a5, a6, a7, a8, a9, a10, b1, b2, b3, b4, b5⟩
 
-/-- into a fresh manager -/
+/-- into a fresh manager: the result has the invariant and the source's order -/
 theorem C11_copy_vars_fresh (src : Tbl) (hO : OrderOK src) (names : List String)
     (hperm : names.Perm src.vars.keys) :
     ∃ m', copyVarsCore src names ({} : Mgr) = (.ok (), m') ∧
-      (∀ v : String, m'.tbl.vars[v]? = src.vars[v]?) ∧ (∀ i : Nat, m'.tbl.l2v[i]? = src.l2v[i]?) := by
-  obtain ⟨m', h, hv, hl, _⟩ := copyVarsCore_spec src hO names hperm {} (VarsCompat.empty src)
-  exact ⟨m', h, hv, hl⟩
+      (∀ v : String, m'.tbl.vars[v]? = src.vars[v]?) ∧ (∀ i : Nat, m'.tbl.l2v[i]? = src.l2v[i]?) ∧
+      Inv m' ∧ OrderOK m'.tbl ∧ m'.tbl.nvars = src.nvars ∧ m'.lastLen = none ∧ m'.ctx = false := by
+  obtain ⟨m', h, hv, hl, _, _, _, _, _, h8, h9, _, ho, hn, _, hi, _⟩ :=
+    C11_copy_vars src hO names hperm {} (VarsCompat.empty src)
+  exact ⟨m', h, hv, hl, (hi Inv.init).1, ho, hn, h8, h9⟩
 
 /-- non-vacuity: a source with two variables (built by two `add_var` steps from the empty
 manager, hence `OrderOK`), visited in the reverse of the sorted order -/
@@ -42,5 +56,17 @@ example : ∃ (src : Tbl) (names : List String), OrderOK src ∧ names.Perm src.
   have : (addVarState (addVarState {} "x") "y").tbl.vars.keys = ["x", "y"] := by decide
   rw [this]
   exact List.Perm.swap "x" "y" []
+
+/-- non-vacuity with a NON-EMPTY compatible target: the target already declares `x` at level 0
+and satisfies `Inv`; the source declares `x`, `y` -/
+example : ∃ (src : Tbl) (m : Mgr), OrderOK src ∧ VarsCompat src m.tbl ∧ Inv m ∧
+    m.tbl.vars["x"]? = some 0 ∧ src.vars["y"]? = some 1 := by
+  have h0 : OrderOK ({} : Mgr).tbl := OrderOK.empty
+  have hx : ({} : Mgr).tbl.vars["x"]? = none := by decide
+  obtain ⟨i1, o1, _, _, _, _, _, _⟩ := addVar_new_spec {} Inv.init h0 "x" hx _ rfl
+  have hy : (addVarState {} "x").tbl.vars["y"]? = none := by decide
+  obtain ⟨_, o2, _, _, hmono, _⟩ := addVar_new_spec (addVarState {} "x") i1 o1 "y" hy _ rfl
+  exact ⟨(addVarState (addVarState {} "x") "y").tbl, addVarState {} "x", o2,
+    ⟨hmono, o1.inv⟩, i1, by decide, by decide⟩
 
 end DD
